@@ -741,6 +741,8 @@ structure World where
   frontEnd : Bool := false            -- a Telnetd/TcpRpc endSession task queued by a handler waits for the next pass
   tel : FrontSt := {}                 -- world B
   rpc : FrontSt := {}
+  mute : List Nat := []               -- telnet / raw-TCP slots whose socket answers every write with EPIPE: what is sent is dropped
+  gone : List Nat := []               -- telnet / raw-TCP slots whose client closed its end; the service learns it in the next loop pass
 deriving DecidableEq, Repr
 
 def World.slot (w : World) (k : Nat) : Slot := w.slots.getD k {}
@@ -753,6 +755,8 @@ inductive Op
   | mkdir | mkfunc (script : List Act) | mount (p c : Nat) (name : Str) | umount (p : Nat) (name : Str) | rmnode (i : Nat)
   | split (bs : Str)
   | front (isTel : Bool) (f : FrontOp)
+  | wfault (k m : Nat)        -- the kernel's answers to write() on the client's socket: 0 all, 1 short counts, 2 EAGAIN every other call, 3 EPIPE
+  | xclose (k : Nat)          -- the client closes its end without a word
 deriving DecidableEq, Repr
 
 def maxNodes : Nat := 16
@@ -854,13 +858,30 @@ def deliver (cfg : Cfg) (w : World) (k : Nat) (bs : Str) : World × List Ev :=
     let r := recvStringD cfg w.nodes w.depth s bs
     finishSlot w k x (some r.1) r.2
 
+def isTx : Ev → Bool
+  | .tx _ _ => true
+  | _ => false
+
+/-- what the client of slot `k` gets to see of these events: nothing that was sent while its socket refuses
+every write (`BufferedFd::send` logs the error and drops the data) or after it closed its end -/
+def heard (w : World) (k : Nat) (evs : List Ev) : List Ev :=
+  if w.mute.contains k || w.gone.contains k then evs.filter (fun e => !isTx e) else evs
+
+/-- the read events of a loop pass find end-of-file on the sockets whose client went away:
+`TcpConnection::onSocketClosed` → `onTcpDisconnected` → `deleteSession` -/
+def dropGone : List Nat → World → World
+  | [], w => w
+  | k :: ks, w =>
+    let x := w.slot k
+    dropGone ks (if x.fstate = 1 then w.setSlot k { x with fstate := 2, sess := none, pending := [], ending := false } else w)
+
 /-- one op; `none` = `bad-op` -/
 def step (cfg : Cfg) (w : World) : Op → Option (World × List Ev)
   | .sel k => if k < 4 then some ({ w with cur := k }, opLine "sel") else none
   | .depth n => if n ≤ 3 then some ({ w with depth := n }, opLine "depth") else none
   | .openS o =>
     let x := w.slot w.cur
-    if o < 4 ∧ x.fstate = 0 then
+    if o < 4 ∧ x.sess = none then         -- a slot whose session is gone (never opened, closed, exited) takes a new one
       let s : St := { opts := o }
       some (w.setSlot w.cur { x with fstate := 1, gen := x.gen + 1, sess := some s },
             .slot w.cur :: beginEvs s ++ retLine true)
@@ -875,7 +896,7 @@ def step (cfg : Cfg) (w : World) : Op → Option (World × List Ev)
         some (r.1, r.2 ++ retLine true)
     else none
   | .pass =>
-    let r := doPass cfg w
+    let r := doPass cfg { dropGone w.gone w with gone := [] }
     some (r.1, r.2 ++ opLine "pass")
   | .teardown =>
     -- services, Terminal, then the Loop are destroyed without draining: the Loop's cleanup runs what is still
@@ -913,7 +934,8 @@ def step (cfg : Cfg) (w : World) : Op → Option (World × List Ev)
     if 4 ≤ k ∧ k < 7 ∧ x.fstate ≠ 1 then
       let s : St := { opts := if k = 6 then 2 else 0 }
       let hello : List Ev := if k = 6 then [] else [.tx .out telnetHello]
-      some (w.setSlot k { fstate := 1, gen := x.gen + 1, sess := some s, pending := [] },
+      some ({ w.setSlot k { fstate := 1, gen := x.gen + 1, sess := some s, pending := [] } with
+               mute := w.mute.filter (· ≠ k), gone := w.gone.filter (· ≠ k) },
             .slot k :: hello ++ beginEvs s ++ opLine "conn")
     else none
   | .xrecv k bs =>
@@ -924,22 +946,23 @@ def step (cfg : Cfg) (w : World) : Op → Option (World × List Ev)
         if buf = [] then some (w, opLine "rest=0")
         else
           let r := deliver cfg w 6 buf
-          some (r.1, r.2 ++ opLine "rest=0")
+          some (r.1, heard w 6 r.2 ++ opLine "rest=0")
       else
         let opts0 := match x.sess with | some s => s.opts | none => 0
         let f := telFeed cfg opts0 x.pending bs
         let a := applyTel cfg w.nodes w.depth x.sess f.1
         let r := finishSlot w k { x with pending := f.2.2 } a.1 a.2
-        some (r.1, r.2 ++ opLine ("rest=" ++ toString f.2.2.length))
+        some (r.1, heard w k r.2 ++ opLine ("rest=" ++ toString f.2.2.length))
     else none
   | .xdisc k =>
     let x := w.slot k
     if 4 ≤ k ∧ k < 7 ∧ x.fstate = 1 then
-      some (w.setSlot k { x with fstate := 2, sess := none, pending := [], ending := false }, opLine "disc")
+      some ({ w.setSlot k { x with fstate := 2, sess := none, pending := [], ending := false } with
+               mute := w.mute.filter (· ≠ k), gone := w.gone.filter (· ≠ k) }, opLine "disc")
     else none
   | .sstart =>
     let x := w.slot 7
-    if x.fstate = 0 then
+    if x.fstate = 0 ∧ w.gone = [] then      -- (the passes of the stdio ops would meet the closed sockets: kept apart)
       let s : St := { opts := 1 }
       let w1 := w.setSlot 7 { x with fstate := 1, gen := x.gen + 1, sess := some s }
       let r := doPass cfg w1
@@ -1000,6 +1023,15 @@ def step (cfg : Cfg) (w : World) : Op → Option (World × List Ev)
   | .front isTel f =>
     if isTel then (frontStep cfg true w.tel f).map (fun r => ({ w with tel := r.1 }, r.2))
     else (frontStep cfg false w.rpc f).map (fun r => ({ w with rpc := r.1 }, r.2))
+  | .wfault k m =>
+    if 4 ≤ k ∧ k < 7 ∧ m < 4 ∧ (w.slot k).fstate = 1 ∧ !w.gone.contains k then
+      some ({ w with mute := if m = 3 then k :: w.mute.filter (· ≠ k) else w.mute.filter (· ≠ k) }, opLine "wfault")
+    else none
+  | .xclose k =>
+    let f7 := (w.slot 7).fstate
+    if 4 ≤ k ∧ k < 7 ∧ (w.slot k).fstate = 1 ∧ !w.gone.contains k ∧ (f7 = 0 ∨ f7 = 3) then
+      some ({ w with gone := k :: w.gone }, opLine "xclose")
+    else none
 
 /-- a whole op file (refused ops change nothing and print `bad-op`) -/
 def run (cfg : Cfg) : World → List Op → World × List Ev
